@@ -24,6 +24,13 @@ using namespace Avoid;
 #ifndef RTYPE
 #define RTYPE OrthogonalRouting
 #endif
+#ifdef ALLOW_ALIGNED
+#define LEVEL_OK() ((void)0)
+#else
+// known finding (known_findings.txt): a pin-attached connector whose free end is exactly level with a pin trips libavoid's own
+// assertion when the shape is moved; the dedicated job router-aligned-move exhibits it, the other jobs stay off that case
+#define LEVEL_OK() ASSUME((pinY != endY) & (pinY != 90))
+#endif
 extern "C" void harness(void) {
     Router *router = new Router(RTYPE);
     router->setRoutingParameter(segmentPenalty, 50);
@@ -33,12 +40,16 @@ extern "C" void harness(void) {
     new ShapeConnectionPin(A, 1, ATTACH_POS_RIGHT, ATTACH_POS_CENTRE, true, 0.0, ConnDirRight);
     new ShapeConnectionPin(A, 1, ATTACH_POS_LEFT, ATTACH_POS_CENTRE, true, 0.0, ConnDirLeft);
 #ifdef CONCRETE_END
-    double ex = 150; double ey = 40;            // lifecycle histories are the subject here, not geometry
+#ifndef ENDY
+#define ENDY 47
+#endif
+    double ex = 150; double ey = ENDY;          // lifecycle histories are the subject here, not geometry (ENDY=40 is collinear with the pins: known finding)
 #else
     double ex = verif_coord(140, 160); double ey = verif_coord(0, 80);
 #endif
     ConnRef *c1 = new ConnRef(router, ConnEnd(A, 1), ConnEnd(Point(ex, ey))), *c2 = 0;
     bool aAlive = true, c1Alive = true, aProcessed = false;
+    double pinY = 40, endY = ey;      // level of A's pins and of connector 1's free end (see LEVEL_OK below)
     // the history may start from a processed scene or from one whose additions are all still queued
 #ifndef INITIAL
 #define INITIAL 2
@@ -46,9 +57,12 @@ extern "C" void harness(void) {
     if (INITIAL == 1 || (INITIAL == 2 && verif_choice(2))) { router->processTransaction(); aProcessed = true; }
     for (int step = 0; step < NSTEPS; step++) {
         int op = verif_choice(7);
+#ifdef OPMASK
+        ASSUME((OPMASK >> op) & 1);      // job-level restriction of the operation menu
+#endif
         if (op == 0) { router->processTransaction(); aProcessed = true; }
         else if (op == 1) { ASSUME(B == 0); B = new ShapeRef(router, rb); }
-        else if (op == 2) { ASSUME(aAlive); double mx = verif_coord(-10, 10); double my = verif_coord(-10, 10); router->moveShape(A, mx, my); }
+        else if (op == 2) { ASSUME(aAlive); double mx = verif_coord(-10, 10); double my = verif_coord(-10, 10); router->moveShape(A, mx, my); pinY = pinY + my; LEVEL_OK(); }
         else if (op == 3) {
             // documented precondition: a shape is not added and deleted within one transaction
             ASSUME(aAlive && (aProcessed || TRANS == 0)); router->deleteShape(A); aAlive = false; }
@@ -61,7 +75,7 @@ extern "C" void harness(void) {
 #else
             double nx = verif_coord(140, 160); double ny = verif_coord(0, 80);
 #endif
-            c1->setDestEndpoint(ConnEnd(Point(nx, ny))); }
+            c1->setDestEndpoint(ConnEnd(Point(nx, ny))); endY = ny; LEVEL_OK(); }
     }
     // optionally process whatever is queued before tearing down (otherwise the router is destroyed with queued actions)
 #ifndef FINAL
@@ -104,11 +118,12 @@ extern "C" void harness(void) {
 using namespace cola;
 extern "C" void harness(void) {
     vpsc::Rectangles rs;
-    for (int i = 0; i < 3; i++) { double x = verif_coord(0, 8), y = verif_coord(0, 8); rs.push_back(new vpsc::Rectangle(x - 5, x + 5, y - 3, y + 3)); }
-    std::vector<Edge> es; es.push_back(Edge(0, 1)); es.push_back(Edge(1, 2));
+    const int N = 2;          // two (always overlapping) rectangles: the object lifecycle is the subject, not the geometry
+    for (int i = 0; i < N; i++) { double x = verif_coord(0, 8); double y = verif_coord(0, 8); rs.push_back(new vpsc::Rectangle(x - 5, x + 5, y - 3, y + 3)); }
+    std::vector<Edge> es; es.push_back(Edge(0, 1));
     ConstrainedFDLayout *alg = new ConstrainedFDLayout(rs, es, 30);
     CompoundConstraints ccs;
-    if (verif_choice(2)) { ccs.push_back(new SeparationConstraint(vpsc::XDIM, 0, 1, verif_coord(0, 30), false)); alg->setConstraints(ccs); }
+    if (verif_choice(2)) { double g = verif_coord(0, 30); ccs.push_back(new SeparationConstraint(vpsc::XDIM, 0, 1, g, false)); alg->setConstraints(ccs); }
     if (verif_choice(2)) alg->setAvoidNodeOverlaps(true);
     UnsatisfiableConstraintInfos ux, uy;
     if (verif_choice(2)) alg->setUnsatisfiableConstraintInfo(&ux, &uy);
@@ -119,6 +134,6 @@ extern "C" void harness(void) {
     for (size_t i = 0; i < ccs.size(); i++) delete ccs[i];
     for (size_t i = 0; i < ux.size(); i++) delete ux[i];
     for (size_t i = 0; i < uy.size(); i++) delete uy[i];
-    for (int i = 0; i < 3; i++) delete rs[i];
+    for (int i = 0; i < N; i++) delete rs[i];
 }
 #endif
